@@ -38,6 +38,10 @@ def run(prog, rep, tier):
     apply(rep, "A1b", "predicates do not modify the values they are asked about (write-effect fixpoint over member functions; handles derived from operands)", r_pred.a1b(prog), 40)
     import r_core
     apply(rep, "P2b", "after every push/pop/drop the type profile that `?word`/`!word` dispatch on equals the types of the top values (stack class interpreted): `let`, `[ ]` and sub-expressions hand back a stack that dispatches like the one they were given", r_core.p2b(prog, tier), 2)
+    import r_stream as _rs7
+    r7 = _rs7.r7(prog)
+    apply(rep, "R7", "an assertion whose predicate fails for one stack goes on to the next stack (op_assert::next never reports exhaustion after a successful pull)",
+          ([i for i in r7[0] if i[0].startswith("R7:op_assert::")], [f for f in r7[1] if f["key"].startswith("R7:op_assert::")]), 1)
     apply(rep, "A8", "a predicate that reports an error answers fail", r_pred.a8(prog), 4)
     import r_stream as _rs
     e9 = _rs.e9(prog, tier)
